@@ -10,6 +10,7 @@ import (
 	"encoding/json"
 	"errors"
 	"fmt"
+	"math"
 	"os"
 	"runtime"
 	"sort"
@@ -36,6 +37,7 @@ type opDesc struct {
 	VetoAt int   `json:"veto_at,omitempty"` // 1-based index of the first vetoing listener (external per-call flag; 0 with Veto = 1)
 	Mark  bool   `json:"mark,omitempty"`  // the value carries the marker field listener 1 vetoes on
 	Wrong int    `json:"wrong,omitempty"` // 0 = value of the store's type, 1.. = some other Go type
+	Unenc int    `json:"unenc,omitempty"` // value of the store's type that cannot be encoded: 1 NaN 2 +Inf 3 -Inf 4 func 5 chan 6 failing MarshalJSON (odd N: nested)
 	NewID string `json:"newid,omitempty"` // what NewID returns if it is called (mockstore)
 }
 
@@ -79,8 +81,37 @@ type isoFail struct {
 // ---- values ----
 
 type item struct {
-	N int  `json:"n"`
-	V bool `json:"v,omitempty"` // marker: the BeforeChange callback vetoes values that carry it
+	N int       `json:"n"`
+	V bool      `json:"v,omitempty"` // marker: the BeforeChange callback vetoes values that carry it
+	F float64   `json:"f,omitempty"` // NaN / Inf make the value unencodable
+	X *failJSON `json:"x,omitempty"` // non-nil makes the value unencodable
+	S *item     `json:"s,omitempty"` // nesting
+}
+
+// failJSON is a json.Marshaler that always fails.
+type failJSON struct{ N int }
+
+func (failJSON) MarshalJSON() ([]byte, error) { return nil, errors.New("failJSON cannot be encoded") }
+
+// unencodable reports whether the call passes a value of the store's type that the encoder rejects.
+func (o opDesc) unencodable() bool {
+	return (o.K == "create" || o.K == "update") && o.Wrong == 0 && o.Unenc > 0
+}
+
+func badLeaf(kind int, n int) interface{} {
+	switch kind {
+	case 1:
+		return math.NaN()
+	case 2:
+		return math.Inf(1)
+	case 3:
+		return math.Inf(-1)
+	case 4:
+		return (func())(nil)
+	case 5:
+		return (chan int)(nil)
+	}
+	return failJSON{n}
 }
 
 type otherStruct struct {
@@ -122,9 +153,36 @@ func mkValue(typed bool, o opDesc) interface{} {
 	switch o.Wrong {
 	case 0:
 		if typed {
-			return item{N: o.N, V: o.Mark}
+			it := item{N: o.N, V: o.Mark}
+			if o.unencodable() {
+				bad := item{N: o.N}
+				switch o.Unenc {
+				case 2:
+					bad.F = math.Inf(1)
+				case 3:
+					bad.F = math.Inf(-1)
+				case 6:
+					bad.X = &failJSON{o.N}
+				default:
+					bad.F = math.NaN()
+				}
+				if o.N%2 == 1 {
+					it.S = &bad
+				} else {
+					bad.V = o.Mark
+					it = bad
+				}
+			}
+			return it
 		}
 		m := map[string]interface{}{"n": float64(o.N)}
+		if o.unencodable() {
+			if o.N%2 == 1 {
+				m["u"] = map[string]interface{}{"k": "x", "bad": []interface{}{1.5, badLeaf(o.Unenc, o.N)}}
+			} else {
+				m["u"] = badLeaf(o.Unenc, o.N)
+			}
+		}
 		switch o.N % 3 {
 		case 1:
 			m["t"] = "s" + strconv.Itoa(o.N)
@@ -154,12 +212,61 @@ func mkValue(typed bool, o opDesc) interface{} {
 	}
 }
 
+// canon is the canonical JSON of a value; values the encoder rejects get a deterministic
+// structural description instead (mockstore stores such values as they are).
 func canon(v interface{}) string {
 	b, err := json.Marshal(v)
 	if err != nil {
-		return "!marshal:" + err.Error()
+		return "!unencodable:" + describe(v)
 	}
 	return string(b)
+}
+
+func describe(v interface{}) string {
+	switch x := v.(type) {
+	case nil:
+		return "nil"
+	case item:
+		s := fmt.Sprintf("item{n:%d v:%v f:%v", x.N, x.V, x.F)
+		if x.X != nil {
+			s += " x:failJSON"
+		}
+		if x.S != nil {
+			s += " s:" + describe(*x.S)
+		}
+		return s + "}"
+	case *item:
+		if x == nil {
+			return "nil"
+		}
+		return "&" + describe(*x)
+	case map[string]interface{}:
+		keys := make([]string, 0, len(x))
+		for k := range x {
+			keys = append(keys, k)
+		}
+		sort.Strings(keys)
+		var sb strings.Builder
+		sb.WriteString("map{")
+		for _, k := range keys {
+			sb.WriteString(k + ":" + describe(x[k]) + " ")
+		}
+		return sb.String() + "}"
+	case []interface{}:
+		var sb strings.Builder
+		sb.WriteString("[")
+		for _, e := range x {
+			sb.WriteString(describe(e) + " ")
+		}
+		return sb.String() + "]"
+	case failJSON:
+		return "failJSON"
+	case func():
+		return "func"
+	case chan int:
+		return "chan"
+	}
+	return fmt.Sprintf("%v", v)
 }
 
 func marker(v interface{}) bool {
@@ -341,6 +448,8 @@ func classify(err error) (string, string) {
 		return "EMissingID", "missingid"
 	case strings.Contains(err.Error(), "value is of type"):
 		return "EType", "type"
+	case strings.HasPrefix(err.Error(), "json: unsupported") || strings.HasPrefix(err.Error(), "json: error calling Marshal"):
+		return "EEncode", "encode"
 	}
 	return "EOther", "other:" + err.Error()
 }
@@ -456,7 +565,7 @@ func optS(s *string) string {
 
 func opTerm(cd caseDesc, ob obs) string {
 	o := ob.desc
-	env := fmt.Sprintf("(Env %s %s %s)", Bool(o.Wrong != 0), Nat(o.vetoAt(cd.nl())), B(o.NewID))
+	env := fmt.Sprintf("(Env %s %s %s %s)", Bool(o.Wrong != 0), Nat(o.vetoAt(cd.nl())), B(o.NewID), Bool(o.unencodable()))
 	var op string
 	switch o.K {
 	case "create":
@@ -730,9 +839,10 @@ func runConcurrent(cd caseDesc, sc *scratch) result {
 // oracle as an ordinary history.
 
 type isoItem struct {
-	O string `json:"o"`
-	S string `json:"s"`
-	P string `json:"p"`
+	O string  `json:"o"`
+	S string  `json:"s"`
+	P string  `json:"p"`
+	F float64 `json:"f,omitempty"` // NaN makes the value unencodable
 }
 
 var isoPadSmall = []int{0, 8, 8, 8, 16, 16, 40, 64}
@@ -878,8 +988,9 @@ func (ir *isoRun) readBack(sl *isoSlot, rt store.ReadTxn, where string, sample b
 	}
 }
 
-const envNone = "(Env false 0%nat [])"
-const envVeto1 = "(Env false 1%nat [])"
+const envNone = "(Env false 0%nat [] false)"
+const envVeto1 = "(Env false 1%nat [] false)"
+const envUnenc = "(Env false 0%nat [] true)"
 
 func (ir *isoRun) owner(st store.Store, g int, d isoDesc) {
 	sl := ir.slots[fmt.Sprintf("w%02d", g)]
@@ -928,6 +1039,35 @@ func (ir *isoRun) owner(st store.Store, g int, d isoDesc) {
 			checkBC("vetoed Update", true)
 			if sample {
 				sl.sample = append(sl.sample, fmt.Sprintf("IO (OUpdate %s %s %s) %s %s %s", B(sl.id), B(want), envVeto1, res, cbTerms(sl.cbs), bcTerms(sl.bcs)))
+			}
+		} else if unencRound := r.Chance(4); unencRound && nl > 0 && sl.last != nil {
+			// an Update with a value of the right type that the encoder rejects
+			var v interface{}
+			if ir.cd.Typed {
+				it := isoValue(true, ownerName, round, 8).(isoItem)
+				it.F = math.NaN()
+				v = it
+			} else {
+				m := isoValue(false, ownerName, round, 8).(map[string]interface{})
+				m["f"] = math.Inf(1)
+				v = m
+			}
+			want := canon(v)
+			sl.pending = &want
+			err := w.Update(v)
+			res, cls := classify(err)
+			if res != "EEncode" {
+				ir.fail(sl.id, round, "Update with a value that cannot be encoded did not fail with the encoder's error", "encode", cls)
+				if err == nil {
+					sl.last, sl.lastV = &want, v // the store says it committed the value
+				}
+			}
+			if len(sl.cbs) != 0 {
+				ir.fail(sl.id, round, "failed Update ran OnChange", "0", strconv.Itoa(len(sl.cbs)))
+			}
+			checkBC("unencodable Update", true)
+			if sample {
+				sl.sample = append(sl.sample, fmt.Sprintf("IO (OUpdate %s %s %s) %s %s %s", B(sl.id), B(want), envUnenc, res, cbTerms(sl.cbs), bcTerms(sl.bcs)))
 			}
 		} else if sl.last != nil && r.Chance(3) {
 			// delete
@@ -1088,8 +1228,10 @@ func runIsolation(cd caseDesc) result {
 			code = "V11"
 		} else if strings.HasPrefix(f.Where, "vetoed Update did not fail") {
 			code = "V4 a BeforeChange veto did not fail"
-		} else if strings.HasPrefix(f.Where, "vetoed Update ran OnChange") {
+		} else if strings.HasPrefix(f.Where, "vetoed Update ran OnChange") || strings.HasPrefix(f.Where, "failed Update ran OnChange") {
 			code = "V5"
+		} else if strings.HasPrefix(f.Where, "Update with a value that cannot be encoded") {
+			code = "V4 a value that cannot be encoded did not fail"
 		}
 		res.impl = append(res.impl, ImplViolation{
 			What: fmt.Sprintf("%s: %s (id %s, owned by one goroutine, round %d): expected %.200s, got %.200s; %d failures in this run",
@@ -1139,6 +1281,9 @@ func genOp(r *Rng, cd caseDesc, kinds []string, id string, gs *genState) opDesc 
 				o.Wrong = 9
 			}
 		}
+	}
+	if (o.K == "create" || o.K == "update") && o.Wrong == 0 && r.Chance(9) {
+		o.Unenc = 1 + r.Intn(6) // right type, but the encoder rejects it
 	}
 	if nl := cd.nl(); nl > 0 && (o.K == "create" || o.K == "update" || o.K == "delete") {
 		if k := gs.toggles[id]; k > 0 {
@@ -1208,10 +1353,11 @@ func genTxn(r *Rng, cd caseDesc, ids []string, maxOps int, gs *genState) txnDesc
 			}
 		}
 		o := genOp(r, cd, kinds, t.ID, gs)
-		if o.Wrong == 0 && !o.Veto && (o.K == "create" || o.K == "update") {
+		stored := o.Wrong == 0 && !o.Veto && !(o.unencodable() && cd.Store == "badger")
+		if stored && (o.K == "create" || o.K == "update") {
 			gs.lastN[t.ID] = o.N
 		}
-		if shadow != nil && o.Wrong == 0 && !o.Veto {
+		if shadow != nil && stored {
 			switch o.K {
 			case "create":
 				if t.ID != "" {
@@ -1261,6 +1407,43 @@ func genConcurrent(r *Rng) caseDesc {
 	return cd
 }
 
+// directed histories around a value of the right type that cannot be encoded: the failing
+// Create/Update is followed, in the same write transaction and in later transactions, by
+// Value/Exists/Update/Delete/Create, so that a wedged or half-written id shows.
+func genDirectedUnenc() []caseDesc {
+	cfgs := []caseDesc{
+		{Store: "badger", Typed: true, Prefix: "p", BeforeChange: true, Listeners: 2},
+		{Store: "badger", Typed: false, Prefix: "", BeforeChange: true, Listeners: 1},
+		{Store: "badger", Typed: true, Prefix: ""},
+		{Store: "badger", Typed: false, Prefix: "x.y"},
+		{Store: "mock", NewID: true},
+		{Store: "mock"},
+	}
+	var out []caseDesc
+	for _, cfg := range cfgs {
+		for kind := 1; kind <= 6; kind++ {
+			for _, n := range []int{2, 3} {
+				bad := func(k string) opDesc { return opDesc{K: k, N: n, Unenc: kind, NewID: "g1"} }
+				seqs := [][]opDesc{
+					{{K: "create", N: 1, NewID: "g2"}, bad("update"), {K: "value"}, {K: "exists"}, {K: "update", N: 2}, {K: "value"}, {K: "delete"}, {K: "create", N: 1, NewID: "g2"}},
+					{bad("create"), {K: "value"}, {K: "exists"}, {K: "create", N: 1, NewID: "g2"}, bad("update"), bad("create"), {K: "value"}, {K: "delete"}, {K: "exists"}},
+				}
+				for _, ops := range seqs {
+					one := cfg
+					one.Txns = []txnDesc{{ID: "a", Write: true, Ops: ops}}
+					out = append(out, one)
+					sep := cfg
+					for _, o := range ops {
+						sep.Txns = append(sep.Txns, txnDesc{ID: "a", Write: o.K != "value" || n == 2, Ops: []opDesc{o}})
+					}
+					out = append(out, sep)
+				}
+			}
+		}
+	}
+	return out
+}
+
 // all histories of at most maxLen single-operation transactions over a small alphabet
 func genExhaustive(cd caseDesc, maxLen int) []caseDesc {
 	var alpha []txnDesc
@@ -1270,6 +1453,8 @@ func genExhaustive(cd caseDesc, maxLen int) []caseDesc {
 			txnDesc{ID: id, Write: true, Ops: []opDesc{{K: "create", N: 2, Wrong: 1, NewID: "g1"}}},
 			txnDesc{ID: id, Write: true, Ops: []opDesc{{K: "update", N: 3}}},
 			txnDesc{ID: id, Write: true, Ops: []opDesc{{K: "update", N: 1}}}, // the value Create stores
+			txnDesc{ID: id, Write: true, Ops: []opDesc{{K: "create", N: 2, Unenc: 1, NewID: "a"}}},
+			txnDesc{ID: id, Write: true, Ops: []opDesc{{K: "update", N: 3, Unenc: 6}}},
 			txnDesc{ID: id, Write: true, Ops: []opDesc{{K: "delete"}}},
 			txnDesc{ID: id, Write: false, Ops: []opDesc{{K: "value"}}},
 			txnDesc{ID: id, Write: true, Ops: []opDesc{{K: "exists"}}},
@@ -1363,6 +1548,9 @@ func main() {
 				add("exhaustive", runSequential(cd, sc))
 			}
 		}
+		for _, cd := range genDirectedUnenc() {
+			add("directed_unencodable", runSequential(cd, sc))
+		}
 		// (b) random sequential histories, 1-25 operations, one or several per transaction
 		nseq, nconc := 1000, 60
 		if thorough {
@@ -1390,6 +1578,6 @@ func main() {
 		}
 	}
 	Emit(o, "C11", "From GoRes Require Import Run.Run_C11.", "kcase",
-		"histories of Create/Update/Delete/Value/Exists through Read/Write transactions of the real badgerstore (scratch BadgerDB; typed/untyped, prefix \"\"/p/x.y, with/without a vetoing BeforeChange) and mockstore (with/without NewID): all histories of <=2 (thorough <=3) single-operation transactions over ids {a,\"\"}, random sequential histories of 1-25 operations over {a,b,c,\"\"} with 1-4 operations per transaction, a pool of 3 payloads per id (Updates to the stored value are common), 1-3 BeforeChange listeners whose vetoes come from a per-call flag, a per-id switch toggled mid-history or a marker in the value, BeforeChange calls recorded per operation, and concurrent runs of 2-6 goroutines x 5-20 transactions over 2-3 ids serialised by observed lock acquisition order, and isolation runs of 8-16 goroutines each owning one id for 400-1200 (thorough up to 4000) write/read-back rounds (incl. vetoed Updates, half of them to the stored value) with owner- and round-stamped values of 30-1500 bytes, checked on the spot, at the end and after reopening the database (first 8 rounds per id also go to the Coq oracle); non-trivial = at least two successful mutations, or a read of the transaction's own write, or a concurrent run; distinct by the whole observed history",
+		"histories of Create/Update/Delete/Value/Exists through Read/Write transactions of the real badgerstore (scratch BadgerDB; typed/untyped, prefix \"\"/p/x.y, with/without a vetoing BeforeChange) and mockstore (with/without NewID): all histories of <=2 (thorough <=3) single-operation transactions over ids {a,\"\"}, random sequential histories of 1-25 operations over {a,b,c,\"\"} with 1-4 operations per transaction, a pool of 3 payloads per id (Updates to the stored value are common), 1-3 BeforeChange listeners whose vetoes come from a per-call flag, a per-id switch toggled mid-history or a marker in the value, BeforeChange calls recorded per operation, 9% of the written values of the right type but unencodable (NaN, +-Inf, func, chan, failing MarshalJSON, flat or nested; also in 288 directed histories that go on using the id afterwards), and concurrent runs of 2-6 goroutines x 5-20 transactions over 2-3 ids serialised by observed lock acquisition order, and isolation runs of 8-16 goroutines each owning one id for 400-1200 (thorough up to 4000) write/read-back rounds (incl. vetoed Updates, half of them to the stored value) with owner- and round-stamped values of 30-1500 bytes, checked on the spot, at the end and after reopening the database (first 8 rounds per id also go to the Coq oracle); non-trivial = at least two successful mutations, or a read of the transaction's own write, or a concurrent run; distinct by the whole observed history",
 		cases, dist, nil, impl, 300)
 }
